@@ -67,6 +67,7 @@ class WireMonitor(Monitor):
         self.props = set(props)
         self.last_sn: dict[int, int] = {}
         self.reqs_since: dict[int, int] = {}
+        self.reqs_total: dict[int, int] = {}
         self.seen_pv: dict[tuple, set] = {}     # (station, mid) -> {(tst, lat, lon)}
         self.rx_frames: dict[tuple, list] = {}  # (station, gen, type, mid, sn) -> [rx rec]
         self.fwd_count: dict[tuple, int] = {}
@@ -101,6 +102,7 @@ class WireMonitor(Monitor):
         op = rec["op"]
         if op["op"] == "req" and not rec["skipped"]:
             self.reqs_since[op["st"]] = self.reqs_since.get(op["st"], 0) + 1
+            self.reqs_total[op["st"]] = self.reqs_total.get(op["st"], 0) + 1
             if op["type"] == "guc" and rec["exc"] is None:
                 self.pending_guc.setdefault(op["st"], []).append(rec)
 
@@ -269,7 +271,9 @@ class WireMonitor(Monitor):
         last = self.last_sn.get((st.idx, st.gen))
         if last is not None:
             k = (sn - last) % 65535
-            if k == 0 or k > self.reqs_since.get(st.idx, 0) + 4:
+            # a request may consume a sequence number without emitting (SCF without neighbour, send error, LS buffer flush):
+            # the number must advance, by no more than the station could have consumed so far
+            if k == 0 or k > self.reqs_total.get(st.idx, 0) + 4:
                 self.v(sim, "C02", "frame-differs", f"{typ}/sn", f"station {st.idx}: sequence number {sn} after {last}")
             if sn < last:
                 sim.probe("sn-wrapped")
